@@ -755,9 +755,25 @@ class ResNetwork(GeoNetwork):
         """
         # set params
         Is = It = FIELD(1.0)
+        admittance, R = self._checked_admittance_and_R()
+        if not 0 <= i < self.N:
+            raise IndexError(f"node index {i} out of range for a network "
+                             f"of {self.N} nodes")
         return _vertex_current_flow_betweenness(
-            self.N, Is, It,
-            to_cy(self.get_admittance(), FIELD), to_cy(self.get_R(), FIELD), i)
+            self.N, Is, It, to_cy(admittance, FIELD), to_cy(R, FIELD), i)
+
+    def _checked_admittance_and_R(self):
+        """
+        Return admittance matrix and R for the compiled kernels, which
+        address them as N x N arrays: refuse matrices of another size (the
+        adjacency was replaced without :meth:`update_resistances`).
+        """
+        admittance, R = self.get_admittance(), self.get_R()
+        if admittance.shape != (self.N, self.N) or \
+                R.shape != (self.N, self.N):
+            raise ValueError("the resistances do not match the present "
+                             "adjacency matrix; call update_resistances()")
+        return admittance, R
 
     def edge_current_flow_betweenness(self):
         """The electrial version of Newmann's edge betweeness
@@ -787,7 +803,7 @@ class ResNetwork(GeoNetwork):
 
         return _edge_current_flow_betweenness(
             self.N, Is, It,
-            to_cy(self.get_admittance(), FIELD), to_cy(self.get_R(), FIELD))
+            *[to_cy(m, FIELD) for m in self._checked_admittance_and_R()])
 
 
 ###############################################################################
